@@ -906,6 +906,21 @@ where
     WeightedAliasIndex<W>: Send + Clone,
 {
     let thorough = ctx.thorough();
+    // lengths at the narrow types' limits (len = MAX - 1, MAX, MAX + 1 and the u32 conversion of len): sparse 0/1 vectors
+    if !W::IS_FLOAT && W::imax() <= 65535 {
+        let mx = W::imax() as usize;
+        for len in [mx - 1, mx, mx + 1, 2 * mx + 1] {
+            for pat in 0..3 {
+                let ws: Vec<M> = (0..len).map(|i| M::I { neg: false, mag: match pat { 0 => 1, 1 => (i % 97 == 0) as u128, _ => (i == len - 1) as u128 } }).collect();
+                ctx.eval(1);
+                if let Some((sym, msg)) = alias_structural::<W>(&ws) {
+                    let short = if msg.len() > 300 { format!("{} ... (len {})", &msg[..300], len) } else { msg };
+                    viol(ctx, "WeightedAliasIndex", W::NAME, &sym, "vector:length_at_type_limit", short, json!({"kind": "alias", "alias": AliasCase { wt: W::NAME.into(), ws: if len <= 600 { ws } else { vec![] } }}));
+                }
+            }
+        }
+        ctx.class(&format!("alias_length_limit_vectors:{}", W::NAME), 12);
+    }
     alias_exhaustive::<W>(ctx, if W::IS_FLOAT { 5 } else { 6 });
     alias_random_structural::<W>(ctx, if thorough { 200_000 } else { 6_000 });
     let fast_profile = !cfg!(debug_assertions);
